@@ -222,7 +222,7 @@ def run(ctx) -> None:
             '(index, value) pairs sorted by index', 'values of an indexed parameter are not ordered by their integer index '
             '(e.g. string order puts name[10] before name[2])', construct='sort', func=pp.qualname)
   sel_parse = sel.methods['parse_multi_dimensional_parameter_name']
-  sel_fmt = sel.methods['_multi_dimensional_parameter_name']
+  sel_fmt = sel.methods.get('_multi_dimensional_parameter_name')
   rx = None
   cands = [n for n in ast.walk(sel_parse.node)]
   for nm in flow.names_in(sel_parse.node):
@@ -232,11 +232,25 @@ def run(ctx) -> None:
     if isinstance(n, ast.Constant) and isinstance(n.value, str) and '(?P<' in n.value:
       rx = n.value
   fm = None
-  for n in ast.walk(sel_fmt.node):
-    if isinstance(n, ast.Constant) and isinstance(n.value, str) and '{}' in n.value:
-      fm = n.value
-    if isinstance(n, ast.JoinedStr):
-      fm = ''.join(v.value if isinstance(v, ast.Constant) else '{}' for v in n.values)
+  # the builder: the dedicated helper when there is one, else the two-placeholder name format used where the
+  # selector creates its indexed parameters (the helper may have been moved / inlined)
+  fmt_nodes = [sel_fmt.node] if sel_fmt is not None else [m.node for m in sel.methods.values() if m is not sel_parse]
+  fms = set()
+  for fnode in fmt_nodes:
+    for n in ast.walk(fnode):
+      if isinstance(n, ast.Constant) and isinstance(n.value, str) and n.value.count('{}') == 2 and sel_fmt is None \
+          and not ('[' in n.value and ']' in n.value):
+        continue
+      if isinstance(n, ast.Constant) and isinstance(n.value, str) and '{}' in n.value and (sel_fmt is not None or n.value.count('{}') == 2):
+        fms.add(n.value)
+      if isinstance(n, ast.JoinedStr):
+        f_ = ''.join(v.value if isinstance(v, ast.Constant) else '{}' for v in n.values)
+        if sel_fmt is not None or (f_.count('{}') == 2 and '[' in f_ and ']' in f_ and len(f_) <= 8):
+          fms.add(f_)
+  if len(fms) == 1:
+    fm = fms.pop()
+  elif len(fms) > 1:
+    raise AnalysisError(f'indexed-name builder: several candidate formats {sorted(fms)}')
   ok5 = False
   detail = ''
   if rx and fm:
